@@ -174,6 +174,23 @@ func (e *Engine) BuildQuery(facts []*Term, goal *Term, solver string, lenBound b
 		// equalities under negation in hypotheses are also goals
 		collectSeqEqs(f, false, &eqs)
 	}
+	// a goal equality between sequences OF SEQUENCES (logs of strings) that are built from the same number
+	// of pieces: the element equalities behind it need their own extensionality markers
+	for _, p := range append([][2]*Term{}, eqs...) {
+		if p[0].Sort == nil || p[0].Sort.Kind != KSeq || p[0].Sort.Elem == nil || p[0].Sort.Elem.Kind != KSeq {
+			continue
+		}
+		a, b := flattenCat(p[0]), flattenCat(p[1])
+		if len(a) != len(b) {
+			continue
+		}
+		for i := range a {
+			if strings.HasPrefix(a[i].Op, "unit.") && strings.HasPrefix(b[i].Op, "unit.") && len(a[i].Args) == 1 && len(b[i].Args) == 1 &&
+				a[i].Args[0].String() != b[i].Args[0].String() {
+				eqs = append(eqs, [2]*Term{a[i].Args[0], b[i].Args[0]})
+			}
+		}
+	}
 	for _, p := range eqs {
 		has := func(t *Term) bool {
 			fc := map[string]*Term{}
@@ -868,4 +885,12 @@ func relevantFacts(facts []*Term, goal *Term) []*Term {
 		}
 	}
 	return out
+}
+
+// flattenCat lists the pieces of a (nested) concatenation, left to right.
+func flattenCat(t *Term) []*Term {
+	if t != nil && strings.HasPrefix(t.Op, "cat.") && len(t.Args) == 2 {
+		return append(flattenCat(t.Args[0]), flattenCat(t.Args[1])...)
+	}
+	return []*Term{t}
 }
